@@ -60,6 +60,20 @@ def compare(ctx, ref_path, omp_path, nthreads):
     return n
 
 
+def omp_env(t, nproc):
+    """OpenMP environment for `nproc` concurrent drivers of `t` threads.  Spinning barriers (ACTIVE) are 30x faster than sleeping
+    ones as long as there are no more runnable threads than cores, and hundreds of times slower beyond that; the policy is chosen
+    from the load of the machine at launch (the verdict does not depend on it, only the duration)."""
+    try:
+        # instantaneous number of runnable tasks (the load averages lag behind the check's own previous phase)
+        load = max(0, int(open("/proc/loadavg").read().split()[3].split("/")[0]) - 1)
+    except (OSError, ValueError, IndexError):
+        load = 0
+    ncpu = os.cpu_count() or 4
+    active = (load + t * nproc) <= ncpu + 3
+    return {"OMP_NUM_THREADS": str(t), "OMP_DYNAMIC": "false", "OMP_WAIT_POLICY": "ACTIVE" if active else "PASSIVE", "VERIF_NO_FORK": "1"}
+
+
 def stress_history(rnd, label):
     """large local polynomial / wavelet grids and direction-selective refinement at mid-range tolerances: the parallel regions
     (buildUpdateMap, surplus update by levels, candidate collection) run long enough for threads to overlap"""
@@ -95,8 +109,8 @@ def stress_history(rnd, label):
 
 def stress(ctx, rnd):
     """compare-only: recorded executions of the serial build against repeated runs of the OpenMP build"""
-    n = 32 if ctx.quick else 80
-    reps = 3 if ctx.quick else 6
+    n = 32 if ctx.quick else 64
+    reps = 2 if ctx.quick else 4
     scens = [stress_history(rnd, "s%d" % i) for i in range(n)]
     env0 = {"VERIF_MAX_POINTS": "20000", "VERIF_NO_FORK": "1"}
     ref = {}
@@ -106,9 +120,10 @@ def stress(ctx, rnd):
         for rep in range(reps):
             traces = {}
             env = dict(env0)
-            env.update({"OMP_NUM_THREADS": str(t), "OMP_DYNAMIC": "false", "OMP_WAIT_POLICY": "ACTIVE"})
-            gl.run_grid(ctx, [("stress", scens)], OBS_NUM, "C13", variant="omphooks", env=env, exec_nproc=max(1, 16 // t), tag="-stress-omp%d" % t, keep_traces=traces,
-                        validate=False, chunk=4, timeout=900)
+            nproc = max(1, 16 // t)
+            env.update(omp_env(t, nproc))
+            gl.run_grid(ctx, [("stress", scens)], OBS_NUM, "C13", variant="omphooks", env=env, exec_nproc=nproc, tag="-stress-omp%d" % t, keep_traces=traces,
+                        validate=False, chunk=4, timeout=1800)
             for k in ref:
                 if k in traces:
                     compared += compare(ctx, ref[k], traces[k], t)
@@ -124,11 +139,11 @@ def run(ctx):
     mask = gl.OBS_NODAL | OBS_NUM
     ref = {}
     gl.run_grid(ctx, [("omp", scens)], mask, "C13", variant="hooks", tag="-serial", keep_traces=ref)
-    threads = [2, 16] if ctx.quick else [1, 2, 3, 8, 16]
+    threads = [2, 16] if ctx.quick else [1, 2, 8, 16]
     compared = 0
     for t in threads:
         traces = {}
-        gl.run_grid(ctx, [("omp", scens)], mask, "C13", variant="omphooks", env={"OMP_NUM_THREADS": str(t), "OMP_DYNAMIC": "false", "OMP_WAIT_POLICY": "ACTIVE", "VERIF_NO_FORK": "1"}, exec_nproc=max(1, 16 // t),
+        gl.run_grid(ctx, [("omp", scens)], mask, "C13", variant="omphooks", env=omp_env(t, max(1, 16 // t)), exec_nproc=max(1, 16 // t), timeout=1200,
                     tag="-omp%d" % t, keep_traces=traces, identical_to=ref)
         for k in ref:
             if k in traces:
